@@ -12,7 +12,7 @@
   `valOf g lv` = `conv.valOf(rv, lv)`, `typeOf t lv` = `conv.typeOf(rt, lv)` (static),
   `typeOfRV g` = `conv.TypeOf(v)` ("the type reported for that same Go value": the type of the
   converted value when the conversion succeeds, else the static type).
-  Proofs: `Yae.Proofs.ConvVal`, `Yae.Proofs.ConvAgree`.
+  Proofs: `Yae.Proofs.ConvVal`, `Yae.Proofs.ConvAgree`, `Yae.Proofs.ConvContent*`.
 
   * well-formed: `valOf_wf` (DEEP well-formedness `Yae.Sound.WF`, the invariant type soundness
     C01/C02 needs of environment values), `valOf_noNil`, `typeOf_wf`, `typeOfRV_wf`.
@@ -24,13 +24,49 @@
     values of equal types.  Without the condition on nil fields it is false
     (`nil_field_counterexample`).  Interface-typed parts need no separate exclusion in the
     statement: a Go type with an interface-typed part has no static type (`typeOf … = error`).
-  * "contents equal the original": `content_*` — the scalar clauses and element order of
-    slices; map entries and struct fields are not restated here beyond well-formedness (the
-    differential stream `conv` compares them against Go).
+  * "contents equal the original": `Yae/Spec/ConvContent.lean` defines one abstract content tree
+    (`Content`: numbers, strings, booleans, instants, sequences, keyed entries, named fields,
+    absent / present) with `GoVal.content` (what the Go value is: integers as the double
+    `float64(·)` gives — by the model's own `intToFloat` / `natToFloat`, so the ROUNDING is not
+    specified a second time —, pointers and interfaces transparent, map entries under the yae key
+    text of their Go key, struct fields under their TAG names, a nil field `absent`, a non-nil
+    `maybe` field `present`) and `Val.content` (what the yae value holds).
+      - `content_defined`: a Go value that converts has a content;
+      - `content_general` (no hypothesis, every shape, any nesting):
+        `v.content = c.norm`, where `norm` inserts the entries of every map one by one
+        (`m.V[key] = v`): of several Go entries whose keys convert to ONE yae key the first one's
+        position and the last one's value remain;
+      - `content_exact`: converted keys pairwise distinct in every map inside ⇒ `v.content = c`
+        (sequence order, every map entry, every struct field under its tag name, nested);
+      - `content_faithful` / `content_order_irrelevant`: the same up to the order of map entries
+        (`≈`, `Content.Equiv`: an equivalence relation that contains every permutation of an
+        entry list and relates only entry lists with the same keys) — the order in which the
+        model lists the entries of a Go map (and of a yae map) is an artefact of the model;
+      - the distinctness hypothesis cannot be dropped: `collision_counterexample`
+        (`map[int64]string{1<<53: "a", 1<<53+1: "b"}` converts, without an error, to a ONE-entry
+        map; which value survives depends on Go's iteration order: `collision_order_dependent`);
+      - `string_keys_distinct`: for maps with Go string keys the hypothesis holds by itself;
+      - through the model's accessors: `content_map_lookup` (`EntryList.find?`),
+        `content_struct_lookup` (`objGet?`), `content_scalars`, `content_slice`;
+      - environments: `env_content`, `env_content_exact`, `env_binds`, `env_binds_struct`
+        (`conv.ValEnvOf` binds every map entry / every struct field name to the content of its
+        value).
+    NOT skipped by `conv`, hence not by `GoVal.content`: unexported struct fields (they are
+    converted like the others; only a `time.Time` behind one fails).  Not covered by the content
+    tree: the TYPE annotations of the converted value (they are the subject of `valOf_wf` and of
+    the agreement theorems).
+  * "an expression compiled against one sample accepts every other value": `sample_accepts`,
+    `sample_accepts_struct` — `envCheck (typeEnvOf g₁) (valEnvOf g₂) = ok` for plain values of
+    one Go type; without `Plain`: `sample_rejected_counterexample`.
+    `Plain` against the wording "nil-able parts non-nil or declared optional": `Plain` is the formal
+    reading of the wording (conforming to the static type, no interface-typed part, a nil
+    struct field only if tagged `maybe`, no nil pointer elsewhere); it admits in addition nil slices / nil maps in other
+    positions (they convert only directly behind a pointer, as the empty list / map, which has
+    the static type: `plain_nil_slice_behind_pointer`).
   * errors: `error_nil_top`, `error_nil_inside`, `error_unsupported_value`,
     `error_unsupported_type`, `error_mixed`, `error_depth`, `error_depth_nested`.
 -/
-import Yae.Proofs.ConvAgree
+import Yae.Proofs.ConvContentLookup
 namespace Yae.C15
 open Yae Yae.Sound Yae.ConvVal
 
@@ -174,6 +210,348 @@ theorem content_slice {el : GoType} {vs : GoValList} {lv : Nat} {ro : Bool} {v :
 example : valOf (.slice .string (.cons (.string "a") (.cons (.string "b") .nil))) 0 =
     .ok (.list (.list .str) (.cons (.str "a") (.cons (.str "b") .nil))) := by rfl
 
+/-! ## contents equal the original: every shape
+
+`GoVal.content g` is what the Go value is, `Val.content v` what the converted value holds
+(`Yae/Spec/ConvContent.lean`); both are trees of the same type `Content`. -/
+
+/-- a Go value that converts has a content (so `g.content = some c` below is no restriction) -/
+theorem content_defined {g : GoVal} {lv : Nat} {ro : Bool} {v : Val}
+    (h : valOf g lv ro = .ok v) : ∃ c, g.content = some c :=
+  let ⟨c, hc, _⟩ := valOf_content h; ⟨c, hc⟩
+
+/-- **contents, in general.**  The converted value holds the content of the Go value with the
+entries of every map inside inserted one by one in the listed order (`Content.norm`; of several
+entries whose Go keys convert to one yae key, the first one's position and the last one's value
+remain).  Every shape, any nesting, no hypothesis. -/
+theorem content_general {g : GoVal} {lv : Nat} {ro : Bool} {v : Val} {c : Content}
+    (h : valOf g lv ro = .ok v) (hc : g.content = some c) : v.content = c.norm := by
+  obtain ⟨c', hc', hv⟩ := valOf_content h
+  rw [hc] at hc'; cases hc'; exact hv
+
+/-- **contents equal the original.**  When in every map inside the Go value the converted keys
+are pairwise distinct, the converted value holds exactly the content of the Go value: numbers as
+doubles, strings, booleans, instants, sequence members in order, every map entry (none invented)
+under the yae key of its Go key, every struct field under its tag name — nil fields absent,
+non-nil `maybe` fields present —, nested arbitrarily, pointers and interfaces unwrapped.
+(The entries even come in the order the Go value lists them; see `content_faithful`.) -/
+theorem content_exact {g : GoVal} {lv : Nat} {ro : Bool} {v : Val} {c : Content}
+    (h : valOf g lv ro = .ok v) (hc : g.content = some c) (hd : c.distinctKeys = true) :
+    v.content = c := by
+  rw [content_general h hc, norm_of_distinct c hd]
+
+/-- the same up to the order of map entries (`≈`), which is all that is meaningful of a Go map -/
+theorem content_faithful {g : GoVal} {lv : Nat} {ro : Bool} {v : Val} {c : Content}
+    (h : valOf g lv ro = .ok v) (hc : g.content = some c) (hd : c.distinctKeys = true) :
+    v.content ≈ c := by
+  rw [content_exact h hc hd]; exact Content.Equiv.refl c
+
+/-- **the iteration order of Go maps does not matter**: two Go values with the same content up to
+the order of map entries (for instance one Go value whose maps were iterated in two different
+orders) convert to values with the same content up to the order of map entries. -/
+theorem content_order_irrelevant {g1 g2 : GoVal} {lv1 lv2 : Nat} {ro1 ro2 : Bool} {v1 v2 : Val}
+    {c1 c2 : Content} (h1 : valOf g1 lv1 ro1 = .ok v1) (h2 : valOf g2 lv2 ro2 = .ok v2)
+    (hc1 : g1.content = some c1) (hc2 : g2.content = some c2) (he : c1 ≈ c2)
+    (hd : c1.distinctKeys = true) : v1.content ≈ v2.content := by
+  have hd2 : c2.distinctKeys = true := by rw [← Content.Equiv.distinctKeys_eq he]; exact hd
+  rw [content_exact h1 hc1 hd, content_exact h2 hc2 hd2]; exact he
+
+/-- what `≈` is: an equivalence relation … -/
+theorem equiv_equivalence : (∀ c : Content, c ≈ c) ∧ (∀ c d : Content, c ≈ d → d ≈ c) ∧
+    (∀ c d e : Content, c ≈ d → d ≈ e → c ≈ e) :=
+  ⟨Content.Equiv.refl, fun _ _ => Content.Equiv.symm, fun _ _ _ => Content.Equiv.trans⟩
+
+/-- … that contains every reordering of an entry list and relates only entry lists with the same
+keys up to order -/
+theorem equiv_entries (es fs : ContentEntries) :
+    (es.toList.Perm fs.toList → Content.entries es ≈ Content.entries fs) ∧
+    (Content.entries es ≈ Content.entries fs →
+      (es.toList.map Prod.fst).Perm (fs.toList.map Prod.fst)) := by
+  refine ⟨fun h => .entries (ContentEntries.Equiv.of_perm h), fun h => ?_⟩
+  cases h with
+  | entries h' => exact ContentEntries.Equiv.keys_perm h'
+
+/-- two iteration orders of `map[string]bool{"a": true, "b": false}` -/
+example : Content.entries (.cons .str "a" (.bool true) (.cons .str "b" (.bool false) .nil)) ≈
+    Content.entries (.cons .str "b" (.bool false) (.cons .str "a" (.bool true) .nil)) :=
+  .entries .swap
+
+/-! ### non-vacuity: a struct with tagged fields, a `maybe` pointer nil and non-nil -/
+
+/-- `struct{A int; B *string "yae:\"b,maybe\""}` -/
+def sampleFields : GoFieldList :=
+  .cons "A" "" (.int .int) true (.cons "B" "yae:\"b,maybe\"" (.ptr .string) true .nil)
+
+/-- `{7, nil}`: `A` under its Go name, `B` under its tag name `b`, absent -/
+example :
+    (GoVal.struct sampleFields (.cons (.int .int 7) (.cons (.ptrNil .string) .nil))).content =
+      some (.fields (.cons "A" (.num (intToFloat 7)) (.cons "b" .absent .nil))) ∧
+    (Content.fields (.cons "A" (.num (intToFloat 7)) (.cons "b" .absent .nil))).distinctKeys = true ∧
+    ∃ v, valOf (.struct sampleFields (.cons (.int .int 7) (.cons (.ptrNil .string) .nil))) 0 = .ok v ∧
+      v.content = .fields (.cons "A" (.num (intToFloat 7)) (.cons "b" .absent .nil)) :=
+  ⟨by rfl, by rfl, _, by rfl, by rfl⟩
+
+/-- `{7, &"x"}`: present -/
+example :
+    (GoVal.struct sampleFields (.cons (.int .int 7) (.cons (.ptr (.string "x")) .nil))).content =
+      some (.fields (.cons "A" (.num (intToFloat 7)) (.cons "b" (.present (.str "x")) .nil))) ∧
+    ∃ v, valOf (.struct sampleFields (.cons (.int .int 7) (.cons (.ptr (.string "x")) .nil))) 0
+        = .ok v ∧
+      v.content = .fields (.cons "A" (.num (intToFloat 7)) (.cons "b" (.present (.str "x")) .nil)) :=
+  ⟨by rfl, _, by rfl, by rfl⟩
+
+/-! ### non-vacuity: a nested slice of maps, behind an interface and a pointer -/
+
+/-- `interface{}(&[]map[string]bool{{"a": true, "b": false}, {"c": true}})` -/
+def sampleNested : GoVal := .iface (.ptr (.slice (.map .string .bool)
+  (.cons (.map .string .bool
+      (.cons (.string "a") (.bool true) (.cons (.string "b") (.bool false) .nil)))
+  (.cons (.map .string .bool (.cons (.string "c") (.bool true) .nil)) .nil))))
+
+def sampleNestedContent : Content := .seq
+  (.cons (.entries (.cons .str (Num.quote "a") (.bool true)
+      (.cons .str (Num.quote "b") (.bool false) .nil)))
+  (.cons (.entries (.cons .str (Num.quote "c") (.bool true) .nil)) .nil))
+
+example : sampleNested.content = some sampleNestedContent ∧
+    sampleNestedContent.distinctKeys = true ∧
+    ∃ v, valOf sampleNested 0 = .ok v ∧ v.content = sampleNestedContent :=
+  ⟨by rfl, by decide, _, by rfl, by rfl⟩
+
+/-! ### colliding keys -/
+
+/-- `float64(int64(1<<53)) == float64(int64(1<<53 + 1))` (round to nearest, ties to even) -/
+theorem int64_collision : intToFloat 9007199254740992 = intToFloat 9007199254740993 := by rfl
+
+/-- two Go keys that convert to the same number: the converted map has ONE entry, holding the
+value of the entry inserted last -/
+theorem collision (i j : Int) (h : intToFloat i = intToFloat j) (a b : String) :
+    valOf (.map (.int .int64) .string
+      (.cons (.int .int64 i) (.string a) (.cons (.int .int64 j) (.string b) .nil))) 0 =
+    .ok (.map (.map .num .str) (.cons .num (Num.renderNum (intToFloat i)) (.str b) .nil)) := by
+  have hm : ¬ (0 > maxLevel) := by decide
+  have hm1 : ¬ (0 + 1 > maxLevel) := by decide
+  simp only [valOf, valOfChecks, hm, hm1, if_false, GoVal.isNil, Bool.false_eq_true,
+    keyHasNaN, valOfU, bind, Except.bind,
+    Val.typeOf, Ty.keyable, Ty.isPrimitive, Ty.kind, Kind.isPrimitive, Bool.true_or, if_true,
+    Val.key?, tyEq, valOfEntries, EntryList.insert, h, and_self, pure, Except.pure,
+    Bool.not_true]
+
+/-- **the full-strength statement is false without distinct converted keys**:
+`map[int64]string{1<<53: "a", 1<<53+1: "b"}` (in this iteration order) has a two-entry content
+whose keys coincide; it converts — without an error — to the one-entry map `{2^53: "b"}`, whose
+content is not the content of the Go value, not even up to order. -/
+theorem collision_counterexample :
+    let g : GoVal := .map (.int .int64) .string
+      (.cons (.int .int64 9007199254740992) (.string "a")
+        (.cons (.int .int64 9007199254740993) (.string "b") .nil))
+    let k := Num.renderNum (intToFloat 9007199254740992)
+    let c : Content := .entries (.cons .num k (.str "a") (.cons .num k (.str "b") .nil))
+    let v : Val := .map (.map .num .str) (.cons .num k (.str "b") .nil)
+    g.content = some c ∧ valOf g 0 = .ok v ∧ c.distinctKeys = false ∧
+      v.content = c.norm ∧ ¬ (v.content ≈ c) := by
+  refine ⟨?_, collision _ _ int64_collision "a" "b", ?_, ?_, ?_⟩
+  · simp only [GoVal.content, GoEntryList.content, Option.bind, Content.key?, Option.map,
+      ← int64_collision]
+  · simp [Content.distinctKeys, ContentEntries.keysNodup, ContentEntries.hasKey]
+  · simp [Val.content, EntryList.content, Content.norm, ContentEntries.normInto,
+      ContentEntries.insert]
+  · intro h
+    have := (equiv_entries _ _).2 h
+    have := this.length_eq
+    simp [Val.content, EntryList.content, ContentEntries.toList] at this
+
+/-- which of the colliding entries survives depends on the order in which Go iterates the map
+(unspecified, in practice random): the same Go map converts to `{2^53: "b"}` or to `{2^53: "a"}` -/
+theorem collision_order_dependent :
+    let k := Num.renderNum (intToFloat 9007199254740992)
+    valOf (.map (.int .int64) .string
+      (.cons (.int .int64 9007199254740992) (.string "a")
+        (.cons (.int .int64 9007199254740993) (.string "b") .nil))) 0 =
+      .ok (.map (.map .num .str) (.cons .num k (.str "b") .nil)) ∧
+    valOf (.map (.int .int64) .string
+      (.cons (.int .int64 9007199254740993) (.string "b")
+        (.cons (.int .int64 9007199254740992) (.string "a") .nil))) 0 =
+      .ok (.map (.map .num .str) (.cons .num k (.str "a") .nil)) := by
+  refine ⟨collision _ _ int64_collision "a" "b", ?_⟩
+  have := collision _ _ int64_collision.symm "b" "a"
+  rwa [← int64_collision] at this
+
+/-- for the commonest key type the hypothesis holds by itself: the (distinct) string keys of a
+Go map convert to pairwise distinct yae keys — quoting is injective.  (For numeric keys it is
+genuinely needed, see above; for `time.Time` keys, rendered as text, it is not examined.) -/
+theorem string_keys_distinct {es : GoEntryList} {ks : List String} {ces : ContentEntries}
+    (hs : stringKeys es = some ks) (hnd : ks.Nodup) (hc : es.content = some ces) :
+    ces.keysNodup = true :=
+  stringKeys_nodup es ks ces hs hnd hc
+
+example : stringKeys (.cons (.string "a") (.bool true) (.cons (.string "b") (.bool false) .nil))
+    = some ["a", "b"] ∧ ["a", "b"].Nodup := ⟨by rfl, by decide⟩
+
+/-! ### the same, read through the accessors of the model -/
+
+/-- **maps**: the converted value is a map value; with distinct converted keys its entry list
+holds exactly the Go entries, and subscripting it (`EntryList.find?`) with the yae key of any Go
+key finds a value holding the content of that Go entry's value -/
+theorem content_map_lookup {kt et : GoType} {es : GoEntryList} {lv : Nat} {ro : Bool} {v : Val}
+    {ces : ContentEntries} (h : valOf (.map kt et es) lv ro = .ok v)
+    (hc : es.content = some ces) (hd : (Content.entries ces).distinctKeys = true) :
+    ∃ ty es', v = .map ty es' ∧ es'.content = ces ∧ es'.length = ces.toList.length ∧
+      ∀ t k c, ((t, k), c) ∈ ces.toList → ∃ x, es'.find? t k = some x ∧ x.content = c := by
+  have hg : (GoVal.map kt et es).content = some (.entries ces) := by
+    simp only [GoVal.content, hc, Option.map]
+  obtain ⟨ty, es', rfl, he⟩ := content_eq_entries (content_exact h hg hd)
+  simp only [Content.distinctKeys, Bool.and_eq_true] at hd
+  refine ⟨ty, es', rfl, he, ?_, fun t k c hm => ?_⟩
+  · rw [← he]; exact length_content es'
+  · subst he; exact entries_find es' t k c hd.1 hm
+where
+  length_content : ∀ es : EntryList, es.length = (EntryList.content es).toList.length
+    | .nil => rfl
+    | .cons _ _ _ es => by
+      simp only [EntryList.length, EntryList.content, ContentEntries.toList, List.length_cons,
+        length_content es]
+
+/-- **structs**: the converted value is an object value whose own type lists the tag names; member
+access by name (`objGet?`) under the tag name of any field finds a value holding that field's
+content (`absent` for a nil field, `present c` for a non-nil `maybe` field) -/
+theorem content_struct_lookup {fs : GoFieldList} {vs : GoValList} {lv : Nat} {ro : Bool} {v : Val}
+    {cf : ContentFields} (h : valOf (.struct fs vs) lv ro = .ok v)
+    (hc : fs.content vs = some cf) (hd : (Content.fields cf).distinctKeys = true) :
+    ∃ F xs, v = .obj (.obj F) xs ∧ ValList.fieldContent F xs = cf ∧
+      ∀ n c, (n, c) ∈ cf.toList → ∃ x, objGet? (.obj F) xs n = some x ∧ x.content = c := by
+  have hg : (GoVal.struct fs vs).content = some (.fields cf) := by
+    simp only [GoVal.content, hc, Option.map]
+  obtain ⟨F, xs, rfl, he⟩ := content_eq_fields (content_exact h hg hd)
+  refine ⟨F, xs, rfl, he, fun n c hm => ?_⟩
+  subst he
+  have hw := valOf_wf h
+  simp only [WF, Ty.wf, Bool.and_eq_true] at hw
+  exact fieldContent_get F xs n c (wfFields_nodup F hw.1) hm
+
+/-- the struct `{7, &"x"}` of above: `b` (the tag name of `B`) is present with "x" -/
+example : ∃ F xs x, valOf (.struct sampleFields
+      (.cons (.int .int 7) (.cons (.ptr (.string "x")) .nil))) 0 = .ok (.obj (.obj F) xs) ∧
+    objGet? (.obj F) xs "b" = some x ∧ x.content = .present (.str "x") :=
+  ⟨_, _, _, by rfl, by rfl, by rfl⟩
+
+/-! ### environments -/
+
+/-- **`conv.ValEnvOf`**: the bindings hold, name by name and in order, the contents the Go value
+offers as an environment (`GoVal.envContent`: the entries of a string-keyed map under their key
+text, else the fields of a struct under their tag names), maps inside inserted entry by entry -/
+theorem env_content {g : GoVal} {env : List (String × Val)} (h : valEnvOf g = .ok env) :
+    ∃ cs, g.envContent = some cs ∧ envContents env = envNorm cs :=
+  valEnvOf_content h
+
+/-- … exactly those contents when the converted keys of every map inside are distinct -/
+theorem env_content_exact {g : GoVal} {env : List (String × Val)} {cs : List (String × Content)}
+    (h : valEnvOf g = .ok env) (hc : g.envContent = some cs)
+    (hd : ∀ p ∈ cs, p.2.distinctKeys = true) : envContents env = cs := by
+  obtain ⟨cs', hc', he⟩ := valEnvOf_content h
+  rw [hc] at hc'; cases hc'
+  rw [he, envNorm_of_distinct cs hd]
+
+/-- **every name is bound to the content of its value**: looking up (`lookupVal`, what
+`envCheck` and evaluation use) any name the Go value offers finds a value holding the content
+offered under that name (names distinct, as the keys of a Go map are) -/
+theorem env_binds {g : GoVal} {env : List (String × Val)} {cs : List (String × Content)}
+    (h : valEnvOf g = .ok env) (hc : g.envContent = some cs)
+    (hd : ∀ p ∈ cs, p.2.distinctKeys = true) (hnd : (cs.map Prod.fst).Nodup)
+    {n : String} {c : Content} (hm : (n, c) ∈ cs) :
+    ∃ v, lookupVal env n = some v ∧ v.content = c :=
+  lookup_of_envContents (env_content_exact h hc hd) hnd hm
+
+/-- for a struct (anything that is not a string-keyed map) the names are distinct by themselves:
+every field is bound, under its tag name, to the content of its value -/
+theorem env_binds_struct {g : GoVal} {env : List (String × Val)} {cs : List (String × Content)}
+    (h : valEnvOf g = .ok env) (hrm : reflectMap g = .notMap) (hc : g.envContent = some cs)
+    (hd : ∀ p ∈ cs, p.2.distinctKeys = true) {n : String} {c : Content} (hm : (n, c) ∈ cs) :
+    ∃ v, lookupVal env n = some v ∧ v.content = c := by
+  have he := env_content_exact h hc hd
+  refine lookup_of_envContents he ?_ hm
+  rw [← he, envContents_fst]
+  exact valEnvOf_struct_nodup h hrm
+
+/-- the struct `{7, &"x"}` as an environment: `A ↦ 7`, `b ↦ present "x"` -/
+example : (GoVal.struct sampleFields
+      (.cons (.int .int 7) (.cons (.ptr (.string "x")) .nil))).envContent =
+      some [("A", .num (intToFloat 7)), ("b", .present (.str "x"))] ∧
+    ∃ env, valEnvOf (.struct sampleFields
+      (.cons (.int .int 7) (.cons (.ptr (.string "x")) .nil))) = .ok env ∧
+      envContents env = [("A", .num (intToFloat 7)), ("b", .present (.str "x"))] :=
+  ⟨by rfl, _, by rfl, by rfl⟩
+
+/-- `&map[string]interface{}{"n": 1, "s": []string{"u"}}` as an environment -/
+example : (GoVal.ptr (.map .string .iface
+      (.cons (.string "n") (.iface (.int .int 1))
+        (.cons (.string "s") (.iface (.slice .string (.cons (.string "u") .nil))) .nil)))).envContent =
+      some [("n", .num (intToFloat 1)), ("s", .seq (.cons (.str "u") .nil))] ∧
+    ∃ env, valEnvOf (.ptr (.map .string .iface
+      (.cons (.string "n") (.iface (.int .int 1))
+        (.cons (.string "s") (.iface (.slice .string (.cons (.string "u") .nil))) .nil)))) = .ok env ∧
+      envContents env = [("n", .num (intToFloat 1)), ("s", .seq (.cons (.str "u") .nil))] :=
+  ⟨by rfl, _, by rfl, by rfl⟩
+
+/-! ## one sample stands for the type: the environment check -/
+
+/-- **an expression compiled against one sample accepts every other value of that type.**
+`g₁`, `g₂` plain values of one Go type whose static type is an object type (a struct, possibly
+behind pointers); `tenv` the compile-time environment made of `g₁` (`conv.TypeEnvOf`), `venv`
+the run-time environment made of `g₂` (`conv.ValEnvOf`): the facade's check accepts. -/
+theorem sample_accepts {g1 g2 : GoVal} {t : GoType} {F : FieldList}
+    {tenv : List (String × Ty)} {venv : List (String × Val)}
+    (h1 : Plain g1 t) (h2 : Plain g2 t) (hT : typeOf t 0 = .ok (.obj F))
+    (ht : typeEnvOf g1 = .ok tenv) (hv : valEnvOf g2 = .ok venv) :
+    envCheck tenv venv = .ok () :=
+  ConvVal.sample_accepts h1 h2 hT ht hv
+
+/-- the same for two values of one Go struct type -/
+theorem sample_accepts_struct {g1 g2 : GoVal} {fs : GoFieldList} {T : Ty}
+    {tenv : List (String × Ty)} {venv : List (String × Val)}
+    (h1 : Plain g1 (.struct fs)) (h2 : Plain g2 (.struct fs)) (hT : typeOf (.struct fs) 0 = .ok T)
+    (ht : typeEnvOf g1 = .ok tenv) (hv : valEnvOf g2 = .ok venv) :
+    envCheck tenv venv = .ok () := by
+  obtain ⟨F, _, _, rfl⟩ := typeOf_struct_inv hT
+  exact ConvVal.sample_accepts h1 h2 hT ht hv
+
+/-- non-vacuity: compiled against `{7, nil}`, run with `{8, &"x"}` -/
+example : Plain (.struct sampleFields (.cons (.int .int 7) (.cons (.ptrNil .string) .nil)))
+      (.struct sampleFields) ∧
+    Plain (.struct sampleFields (.cons (.int .int 8) (.cons (.ptr (.string "x")) .nil)))
+      (.struct sampleFields) ∧
+    typeOf (.struct sampleFields) 0 = .ok (.obj (.cons "A" .num (.cons "b" (.maybe .str) .nil))) ∧
+    typeEnvOf (.struct sampleFields (.cons (.int .int 7) (.cons (.ptrNil .string) .nil))) =
+      .ok [("A", .num), ("b", .maybe .str)] ∧
+    valEnvOf (.struct sampleFields (.cons (.int .int 8) (.cons (.ptr (.string "x")) .nil))) =
+      .ok [("A", .num (intToFloat 8)), ("b", .just .str (.str "x"))] := by
+  refine ⟨?_, ?_, by rfl, by rfl, by rfl⟩
+  · simp only [Plain, PlainFields, sampleFields, GoVal.isNil, Bool.false_eq_true, if_false,
+      if_true, true_and, and_true]
+    rfl
+  · simp only [Plain, PlainFields, sampleFields, GoVal.isNil, Bool.false_eq_true, if_false,
+      true_and, and_true]
+    exact ⟨_, rfl, rfl⟩
+
+/-- the condition on nil fields cannot be dropped here either: compiled against
+`struct{P *int}{nil}` (`P: maybe[num]`), run with `struct{P *int}{&1}` (`P` a number):
+rejected -/
+theorem sample_rejected_counterexample :
+    let fs : GoFieldList := .cons "P" "" (.ptr (.int .int)) true .nil
+    typeEnvOf (.struct fs (.cons (.ptrNil (.int .int)) .nil)) = .ok [("P", .maybe .num)] ∧
+    valEnvOf (.struct fs (.cons (.ptr (.int .int 1)) .nil)) = .ok [("P", .num (intToFloat 1))] ∧
+    envCheck [("P", .maybe .num)] [("P", .num (intToFloat 1))] = .error .mismatch :=
+  ⟨by rfl, by rfl, by rfl⟩
+
+/-- `Plain` is a little wider than "nil-able parts non-nil or declared optional": a nil slice
+(or map) directly behind a pointer is plain; it converts like the empty one, to a value of the
+static type -/
+theorem plain_nil_slice_behind_pointer :
+    Plain (.ptr (.sliceNil .string)) (.ptr (.slice .string)) ∧
+    typeOf (.ptr (.slice .string)) 0 = .ok (.list .str) ∧
+    valOf (.ptr (.sliceNil .string)) 0 = .ok (.list (.list .str) .nil) :=
+  ⟨by simp [Plain], by rfl, by rfl⟩
+
 /-! ## errors -/
 
 /-- nil at top level (`reflect.ValueOf(nil)`, nil pointer / slice / map / interface / chan / func) -/
@@ -242,6 +620,28 @@ end Yae.C15
 #print axioms Yae.C15.shape_determines_type
 #print axioms Yae.C15.content_scalars
 #print axioms Yae.C15.content_slice
+#print axioms Yae.C15.content_defined
+#print axioms Yae.C15.content_general
+#print axioms Yae.C15.content_exact
+#print axioms Yae.C15.content_faithful
+#print axioms Yae.C15.content_order_irrelevant
+#print axioms Yae.C15.equiv_equivalence
+#print axioms Yae.C15.equiv_entries
+#print axioms Yae.C15.int64_collision
+#print axioms Yae.C15.collision
+#print axioms Yae.C15.collision_counterexample
+#print axioms Yae.C15.collision_order_dependent
+#print axioms Yae.C15.string_keys_distinct
+#print axioms Yae.C15.content_map_lookup
+#print axioms Yae.C15.content_struct_lookup
+#print axioms Yae.C15.env_content
+#print axioms Yae.C15.env_content_exact
+#print axioms Yae.C15.env_binds
+#print axioms Yae.C15.env_binds_struct
+#print axioms Yae.C15.sample_accepts
+#print axioms Yae.C15.sample_accepts_struct
+#print axioms Yae.C15.sample_rejected_counterexample
+#print axioms Yae.C15.plain_nil_slice_behind_pointer
 #print axioms Yae.C15.error_nil_top
 #print axioms Yae.C15.error_nil_inside
 #print axioms Yae.C15.error_unsupported_value
